@@ -42,7 +42,8 @@ ASSUMPTIONS = [
 def cases(rng, tier):
     base = S.gen_cases(rng, tier, 90 if tier == "quick" else 1200) + S.default_cases(random.Random(str(rng.getstate()[1][0])), tier, 150 if tier == "quick" else 2500) + S.crosstype_cases() \
         + X.directed_ctor_cases() + X.decimal_cases() + X.temporal_cases()
-    ext = S.gen_cases(random.Random("ext" + str(rng.getstate()[1][0])), tier, 70 if tier == "quick" else 1000, ext=True, prefix="E") + S.xstring_cases()
+    ext = S.gen_cases(random.Random("ext" + str(rng.getstate()[1][0])), tier, 70 if tier == "quick" else 1000, ext=True, prefix="E") + S.xstring_cases() \
+        + S.default_cases(random.Random("extd" + str(rng.getstate()[1][0])), tier, 80 if tier == "quick" else 1200, ext=True)
     # arguments that are the library's own typed wrappers, read from a laxly declared field of another instance
     tp = S.transplant_cases(random.Random("tp" + str(rng.getstate()[1][0])), tier, 60 if tier == "quick" else 800)
     # DecimalNumber (Sem/Decimal.lean): bare, Array items, Map values
